@@ -160,6 +160,11 @@ def mutate(img, kind, variant, mseed, chains, free):
     n = img.nslots
     ch = r.choice(full)
     s = r.choice(ch["slots"])
+    single = [c for c in full if len(c["slots"]) == 1]
+    if single and kind in ("entry_size", "payload_size", "version", "zero_payload", "first_change", "meta_size", "meta_flip") and mseed % 2 == 0:
+        # half of the header-field lies hit an entry whose ONLY slot this is (nothing else of the entry gets loaded)
+        ch = single[(mseed // 2) % len(single)]
+        s = ch["slots"][0]
     other = r.choice([c for c in full if c is not ch] or full)
     t = r.choice(other["slots"])
     weird = [n, n + 1, -2, -100, 2 ** 31 - 1, -2 ** 31, r.choice(free) if free else n]
